@@ -565,6 +565,34 @@ Fixpoint oracle_steps (l : lockkind) (keys : list key) (ops : list sop) (obs : l
   | _, _ => true
   end.
 
+(* "a waiter whose context ends stops waiting", outer-cancel lock.  The clause is evaluated on
+   the observations like for lock.Context, but it is CONDITIONAL on the model: the code keeps one
+   accepted exception - a reader whose request has been taken into the lock's one-slot request
+   queue and has not been looked at yet does not watch its context (RLock's second select), which
+   the faithful model reproduces.  So a waiter with a done context is a violation (verdict 3)
+   exactly when no model state explains the observations; when the model does, it is that
+   exception and nothing is reported. *)
+Fixpoint outer_waiters_steps (l : lockkind) (ops : list sop) (obs : list sobs)
+         (done : list Z) (ctxs : list Z) : bool :=
+  match ops, obs with
+  | op :: ops', o :: obs' =>
+      let done' := match op with SCancel c => if so_skip o then done else c :: done | _ => done end in
+      let ctxs' := match op with
+                   | SRLock t _ c => if so_skip o then ctxs else upd_nth (Z.to_nat t) c ctxs
+                   | SLock t _ _ => if so_skip o then ctxs else upd_nth (Z.to_nat t) (-1) ctxs
+                   | _ => ctxs
+                   end in
+      no_dead_waiter (so_st o) ctxs' done' && outer_waiters_steps l ops' obs' done' ctxs'
+  | _, _ => true
+  end.
+
+Definition outer_waiters_ok (c : case) : bool :=
+  match c with
+  | CScript ((LOuter | LOuterLong) as l) n _ ops obs _ _ _ _ _ _ =>
+      outer_waiters_steps l ops obs [] (map (fun _ => -1) (zseq n))
+  | _ => true
+  end.
+
 Definition oracle (c : case) : bool :=
   match c with
   | CScript l n keys ops obs arr gr occ_bad early badcause stuck =>
@@ -606,9 +634,11 @@ Definition occ_explained (l : lockkind) (keys : list key) (ops : list sop) (obs 
    a known finding may absorb); 3 = the oracle fails and the faithful model does NOT reproduce
    what was seen: no model state is compatible with the observations, or the failure is one the
    model never exhibits (a reader cancelled before the grace period / with a foreign cause, a run
-   that never became quiescent, an occupancy violation that the observations do not show). *)
+   that never became quiescent, an occupancy violation that the observations do not show; for the
+   outer-cancel lock also: some call keeps waiting although its context has ended and the model
+   cannot explain the observations, see [outer_waiters_ok]). *)
 Definition check_case (c : case) : Z :=
-  if oracle c then (if model_agrees c then 0 else 1)
+  if oracle c then (if model_agrees c then 0 else if outer_waiters_ok c then 1 else 3)
   else match c with
        | CScript l n keys ops obs _ _ occ_bad early badcause stuck =>
            if early || badcause || stuck then 3
